@@ -226,6 +226,16 @@ def limit_specs():
     for n in (99, 100, 101, 150, 400, 2000):
         # -b: the backing-up report lists the rules associated with a non-accepting state; here n rules share one
         out.append(("backup-%d" % n, ("%option noyywrap\n%%\n" + "".join("k%04dx ;\n" % i for i in range(n)) + "%%\n").encode(), ["-b"], "ok"))
+    # a single token of user code longer than the generator's buffers (they grow by doubling): string literal, comment, plain code,
+    # in an action, in a %{ %} block of section 1, in %top and in section 3
+    for n in (2049, 4097, 8193, 20000, 70000, 300000, 700000):
+        long_str = '"' + "x" * n + '"'
+        out.append(("action-string-%d" % n, ("%%option noyywrap\n%%%%\na { const char *s = %s; (void)s; }\n%%%%\n" % long_str).encode(), [], "ok"))
+        out.append(("action-comment-%d" % n, ("%%option noyywrap\n%%%%\na { /* %s */ }\n%%%%\n" % ("y" * n)).encode(), [], "ok"))
+        out.append(("action-ident-%d" % n, ("%%option noyywrap\n%%%%\na { int %s = 0; (void)%s; }\n%%%%\n" % ("v" * n, "v" * n)).encode(), [], "ok"))
+        out.append(("block-string-%d" % n, ("%%option noyywrap\n%%{\nstatic const char vf_long[] = %s;\n%%}\n%%%%\na ;\n%%%%\n" % long_str).encode(), [], "ok"))
+        out.append(("top-string-%d" % n, ("%%top{\nstatic const char vf_long[] = %s;\n}\n%%option noyywrap\n%%%%\na ;\n%%%%\n" % long_str).encode(), [], "ok"))
+        out.append(("sect3-string-%d" % n, ("%%option noyywrap\n%%%%\na ;\n%%%%\nstatic const char vf_long[] = %s;\n" % long_str).encode(), [], "ok"))
     out.append(("ccl-many", ("%option noyywrap\n%%\n" + "".join("[%c-%c%c]x%d ;\n" % (97 + i % 20, 98 + i % 20, 65 + i % 26, i) for i in range(700)) + "%%\n").encode(), [], "ok"))
     return out
 
